@@ -119,6 +119,9 @@ func (b *builder) bechString(a bechAbs, hrp string) (string, error) {
 	}
 	switch a.Defect {
 	case "tooshort":
+		if len(hrp) > 5 {
+			return "", errNoSuchString // prefix, separator and a symbol already make 8 characters
+		}
 		return hrp + "1" + strings.Repeat("q", 7-len(hrp)-1), nil
 	case "toolong":
 		g := make([]byte, 91-len(hrp))
@@ -227,6 +230,9 @@ func (b *builder) runBech(c *vrun.Ctx, rc rawCase) error {
 		}
 		if err != nil {
 			return fmt.Errorf("building %+v: %w", want, err)
+		}
+		if want.Defect != "toolong" && len(s) > 90 {
+			continue // with this prefix the row's string is too long to be one
 		}
 		dn := nets[b.rng.Intn(len(nets))]
 		a, _, err := b.t.checkDecode(c, s, dn, "table-row", "row of the bech32 decision table", rc.replay())
